@@ -6,7 +6,6 @@
      part 4  satisfiability, error bodies, URL values
      part 5  refutation witnesses and the non-vacuity example *)
 From Sebuf Require Import Conform.
-From Sebuf Require Import Errors.
 From SebufProofs Require Import JsonSchemaFacts RulesFacts OpenApiFacts TextFacts CodecTextFacts ProtoJsonFacts CodecExamples MappingFacts.
 
 (* ================================================================================================ *)
@@ -1165,10 +1164,7 @@ Qed.
 
 Lemma error_body_shape msg :
   wire_jv (error_body msg) = match msg with [] => JVObj [] | _ => JVObj [(s "message", JVStr msg)] end.
-Proof.
-  unfold error_body, pmsg_pj, etext_string. cbn [lit tx_lit tx_json]. rewrite app_nil_r.
-  destruct msg; reflexivity.
-Qed.
+Proof. destruct msg; reflexivity. Qed.
 
 (* the default response: sebuf.http.Error with any text *)
 Theorem error_body_valid : forall (P : vparams) (cst : list (str * jschema)) (msg : str),
@@ -1185,8 +1181,7 @@ Qed.
 Definition violation_jv (fd : str * str) : jv := JVObj [(s "field", JVStr (fst fd)); (s "description", JVStr (snd fd))].
 
 Lemma violation_wire fd : str_null (fst fd) = false -> str_null (snd fd) = false ->
-  wire_jv (JObj ((match fst fd with [] => [] | f => [(s "field", JStr f)] end) ++
-                 (match snd fd with [] => [] | d => [(s "description", JStr d)] end))) = violation_jv fd.
+  wire_jv (violation_json fd) = violation_jv fd.
 Proof. destruct fd as [[|a f] [|b d]]; cbn; try discriminate; reflexivity. Qed.
 
 (* the 400 response: sebuf.http.ValidationError with at least one violation, every violation naming a
@@ -1210,11 +1205,9 @@ Proof.
   { apply Hb. right. now left. }
   rewrite (validates_ref P cst _ _ _ _ Hf). apply vand_true_r.
   assert (Hw : wire_jv (validation_body vs) = JVObj [(s "violations", JVArr (map violation_jv vs))]).
-  { unfold validation_body, pmsg_pj. unfold vs at 1.
-    change (wire_jv (JObj [(s "violations", JArr (map (fun fd => JObj ((match fst fd with [] => [] | f => [(s "field", JStr f)] end) ++
-                                                      (match snd fd with [] => [] | d => [(s "description", JStr d)] end))) vs))]))
-      with (JVObj [(s "violations", JVArr (map wire_jv (map (fun fd => JObj ((match fst fd with [] => [] | f => [(s "field", JStr f)] end) ++
-                                                      (match snd fd with [] => [] | d => [(s "description", JStr d)] end))) vs)))]).
+  { unfold validation_body. unfold vs at 1. cbv iota. fold vs.
+    change (wire_jv (JObj [(s "violations", JArr (map violation_json vs))]))
+      with (JVObj [(s "violations", JVArr (map wire_jv (map violation_json vs)))]).
     do 4 f_equal. rewrite map_map. apply map_ext_in. intros fd Hin. destruct (Hall fd Hin). now apply violation_wire. }
   rewrite Hw.
   change (typed (object_of [(s "violations", array_of (ref_to (s "FieldViolation")))] [s "violations"]))
